@@ -2,7 +2,10 @@ import IdpyVerif.Model.Interop
 namespace Idpy.Driver.Interop
 open Idpy Idpy.Interop
 
-def rtOf : String → Option RT | "code" => some .code | "id_token" => some .idToken | "code id_token" => some .codeIdToken | _ => none
+def rtOf : String → Option RT
+  | "code" => some .code | "id_token" => some .idToken | "code id_token" => some .codeIdToken
+  | "code token" => some .codeToken | "id_token token" => some .idTokenToken | "code id_token token" => some .codeIdTokenToken
+  | "token" => some .token | _ => none
 def rmOf : String → Option RM | "-" => some .default | "query" => some .query | "fragment" => some .fragment | "form_post" => some .formPost | _ => none
 def amOf : String → Option AM
   | "client_secret_basic" => some .secretBasic | "client_secret_post" => some .secretPost | "client_secret_jwt" => some .secretJwt
@@ -27,7 +30,7 @@ def handle (args : List String) : Option String :=
     match run c (offline = "1") with
     | none => some "refused"
     | some o => some ("\t".intercalate [showP o.placement, ",".intercalate (o.calls.map showC), b o.codeFront, b o.idTokenFront, b o.tokenResponse,
-                                         b o.refreshToken, b o.idTokenEncrypted, b o.userinfoCalled])
+                                         b o.refreshToken, b o.idTokenEncrypted, b o.userinfoCalled, b o.tokenFront, b o.idToken, b o.accessToken])
   | _ => none
 
 end Idpy.Driver.Interop
